@@ -373,8 +373,12 @@ def code_loc_spec(tt):
             arms.append("        pt::Expression::%s(v) => if v@.len() > 0 { v@[0].loc } else { arbitrary() }," % vn)
         else:
             raise RuntimeError("code_loc_spec: unexpected Expression variant shape %s" % vn)
-    return ("/// spec twin of `impl CodeLocation for Expression` (TRUSTED transcription; the impl itself is external code)\n"
-            "pub open spec fn code_loc(e: pt::Expression) -> pt::Loc {\n    match e {\n%s\n    }\n}\n" % "\n".join(arms))
+    pre = "\n".join("        pt::Expression::%s(v) => v@.len() > 0," % vn for vn in ("StringLiteral", "HexLiteral"))
+    return ("/// spec twin of `impl CodeLocation for Expression`, generated from the Expression type definition\n"
+            "/// (the first Loc field of the variant); the real impl is VERIFIED against it in every unit\n"
+            "pub open spec fn code_loc(e: pt::Expression) -> pt::Loc {\n    match e {\n%s\n    }\n}\n"
+            "/// precondition of Expression::loc(): the piece list of a string / hex literal is not empty (`v[0]`)\n"
+            "pub open spec fn code_loc_pre(e: pt::Expression) -> bool {\n    match e {\n%s\n        _ => true,\n    }\n}\n" % ("\n".join(arms), pre))
 
 
 # ---------------------------------------------------------------- executable oracle generation
